@@ -1,6 +1,7 @@
 import EupsModel.Lemmas.RecordReloc
 import EupsModel.Lemmas.RecordText
 import EupsModel.Lemmas.RecordEndToEnd
+import EupsModel.Lemmas.RecordDir
 /-! C16 — database records round-trip and stacks are relocatable.  Property theorems only.
 Model and the specification-side definitions used in the statements (`DirPl`, `TabPl`, `DirPl.at`, `TabPl.at`,
 `declaredProd`, `canonInfo`, `PlaceOK`, `DeclEx`, `ReadEx`, `readBack`): `Model/Record.lean`; helper lemmas:
@@ -103,6 +104,32 @@ theorem C16_other_flavors_untouched (ex : Path → Bool) (who now : Str) (vr vr'
     (hi : dget vr.flavors f' = some i) (hs : TrimStable ex (stackRoot p.db) i) :
     dget vr'.flavors f' = some i :=
   other_flavors_untouched ex who now vr vr' p h f' hf i hi hs
+
+/-- **Other flavors untouched, database layer** (version *and* chain records): `Database.undeclare` of one flavor
+(its tags first, then its block of the version file), `Database.unassignTag` for one flavor and
+`Database.assignTag` for one flavor (a new tag, or a tag re-pointed) leave the block of every other flavor in every
+chain record and in every version record of the product exactly as it was; a record disappears only when its last
+block goes.  `blockC d tag f` / `blockV d version f` = the block of flavor `f` in that record, `none` when the
+record or the block does not exist. -/
+theorem C16_other_flavors_untouched_db (d : PDir) (name tag version flavor who now f' : Str) (hf : f' ≠ flavor) :
+    ((∀ t, (d.undeclare version flavor).blockC t f' = d.blockC t f') ∧
+     (∀ v, (d.undeclare version flavor).blockV v f' = d.blockV v f')) ∧
+    ((∀ t, (d.unassignTag tag flavor).blockC t f' = d.blockC t f') ∧
+     (d.unassignTag tag flavor).versions = d.versions) ∧
+    ((∀ t, (d.assignTag name tag version flavor who now).blockC t f' = d.blockC t f') ∧
+     (∀ v, (d.assignTag name tag version flavor who now).blockV v f' = d.blockV v f')) :=
+  ⟨undeclare_blocks d version flavor f' hf, unassignTag_blocks d tag flavor f' hf,
+   assignTag_blocks d name tag version flavor who now f' hf⟩
+
+/-- Non-vacuity: version `1` declared for flavors `L` and `G`, `current` on both; undeclaring flavor `G` removes
+`G`'s blocks and keeps `L`'s block of the chain record (and of the version record). -/
+example :
+    let ci : CInfo := { version := Fld.val [49], declarer := Fld.val [114] }
+    let vi : Info := { declarer := Fld.val [114], productDir := Fld.val [100] }
+    let d : PDir := { versions := [([49], { name := some [97], version := some [49], flavors := [([76], vi), ([71], vi)] })],
+                      chains := [([99], { name := some [97], tag := some [99], flavors := [([76], ci), ([71], ci)] })] }
+    (d.undeclare [49] [71]).blockC [99] [76] = some ci ∧ (d.undeclare [49] [71]).blockC [99] [71] = none ∧
+    (d.undeclare [49] [71]).blockV [49] [76] = some vi ∧ (d.undeclare [49] [71]).blockV [49] [71] = none := by decide
 
 /-! Non-vacuity: a concrete good version record with two flavors, and a good chain record. -/
 def exampleInfo1 : Info :=
